@@ -9,7 +9,7 @@ from vf.runner import Unsupported
 from vf.pyvc import extract
 from vf.pyvc.interp import (Ex, Frame, LoopSpec, Obl, PathEnd, PyRaise, VExc, _Return, _is_generator,
                             _walk_shallow)
-from vf.pyvc.values import (V, VInt, VBool, NONE, VSeq, VBox, VTuple, VOpt, VObj, VPy, VFunc, VClass,
+from vf.pyvc.values import (V, VInt, VBool, NONE, VSeq, VBox, VTuple, VOpt, VObj, VPy, VFunc, VClass, unwrap,
                             fresh, fresh_name, reset_names, type_of, lift, wrap, unwrap, sort_of)
 
 
@@ -26,6 +26,9 @@ class Contract:
     returns = None          # type descriptor of the result (for modular calls)
     yields = None           # element type descriptor when the function is a generator
     raises_modifies = {}    # exception class name -> modifies list for that exceptional exit (default: `modifies`)
+    ghost_final = ()        # ((location, expression), ...): ghost assignments performed at the normal exit of the
+                            # function under verification, before `ensures` is checked.  For a ghost array the
+                            # expression gives the element at index `i` (total definition: always consistent).
     ghosts = ()             # ghost parameters of the contract (e.g. the number of members); a caller supplies
                             # the witness through a variable of the same name in its own contract
     locals_order = None     # first-binding order of parameters and locals when the contract was written (for pure renames)
@@ -48,6 +51,7 @@ class World:
         self.speclib = speclib
         self.spec_env = dict(spec_env or {})
         self.contracts = {}         # (module, qualname) -> Contract
+        self.heap_classes = {}      # class name -> {field: type}: instances are VRef, fields live in the array heap
         self.vcgen_budget = float(os.environ.get("VERIF_VCGEN_BUDGET") or 120)
         self.setattr_hooks = {}
         self._loop_ord = {}
@@ -148,6 +152,17 @@ class World:
             # havoc the frame
             for loc in c.modifies:
                 n = ast.parse(loc, mode="eval").body
+                if isinstance(n, ast.Attribute) and isinstance(n.value, ast.Name) and n.value.id in self.heap_classes:
+                    # a whole heap field of a reference class: "LinkedListNode.next_node"
+                    key = (n.value.id, n.attr)
+                    ex.heap_array(*key)
+                    ex.heap[key] = z3.Const(fresh_name("heap_%s_%s" % key), ex.heap[key].sort())
+                    continue
+                if isinstance(n, ast.Name) and n.id == "allocation":
+                    cur = ex.alloc_counter()
+                    ex.next_ref = z3.Int(fresh_name("next_ref"))
+                    ex.assume(ex.next_ref >= cur)
+                    continue
                 if isinstance(n, ast.Attribute):
                     obj = ex.eval(n.value)
                     if isinstance(obj, VOpt):
@@ -266,6 +281,7 @@ class World:
                 stats["normal"] += 1
                 if ex.sat_now():
                     stats["feasible_normal"] = True
+                self.apply_ghost_final(ex, c, fr)
                 for i, text in enumerate(c.ensures):
                     for j, conj in enumerate(_conjuncts(self.parse_expr(text))):
                         _mark_goal(conj)
@@ -299,6 +315,38 @@ class World:
             ex.spec_mode -= 1
             ex.frames.pop()
 
+    def apply_ghost_final(self, ex, c, fr):
+        from vf.pyvc.values import VArr, VRef
+        from vf.pyvc.interp import mangle
+        todo = []
+        for loc, expr in c.ghost_final:
+            n = ast.parse(loc, mode="eval").body
+            if not isinstance(n, ast.Attribute):
+                raise Unsupported("ghost_final location %s" % loc)
+            obj = ex.eval(n.value)
+            cur = obj.fields.get(n.attr)
+            if isinstance(cur, VArr):
+                iv = z3.Int(fresh_name("gi"))
+                saved = fr.vars.get("i")
+                idx_cls = getattr(c, "ghost_index", {}).get(loc)       # arrays indexed by references: `i` is a reference
+                fr.vars["i"] = VRef(idx_cls, iv) if idx_cls else VInt(iv)
+                try:
+                    val = ex.eval_guarded(ast.parse(expr, mode="eval").body, z3.BoolVal(True))
+                finally:
+                    if saved is None:
+                        fr.vars.pop("i", None)
+                    else:
+                        fr.vars["i"] = saved
+                new = z3.Const(fresh_name("ghost_" + n.attr), cur.t.sort())
+                todo.append((obj, n.attr, VArr(cur.ety, new),
+                             z3.ForAll([iv], z3.Select(new, iv) == unwrap(cur.ety, val), patterns=[z3.Select(new, iv)])))
+            else:
+                todo.append((obj, n.attr, ex.eval_text(expr), None))
+        for obj, attr, val, ax in todo:          # simultaneous assignment: all right-hand sides saw the old ghost state
+            obj.fields[attr] = val
+            if ax is not None:
+                ex.define(ax)
+
     def frame_check(self, ex, c, f, snap, exceptional=None):
         """Everything reachable from the parameters that is not listed in `modifies` is unchanged."""
         from vf.pyvc.interp import mangle
@@ -319,6 +367,17 @@ class World:
             elif isinstance(n, ast.Name):
                 b = ex.frame().lookup(n.id)
                 allowed.add((id(b), None))
+        heap_allowed = set()
+        for loc in mods:
+            n = ast.parse(loc, mode="eval").body
+            if isinstance(n, ast.Attribute) and isinstance(n.value, ast.Name) and n.value.id in self.heap_classes:
+                heap_allowed.add((n.value.id, n.attr))
+        for key, arr in sorted(ex.heap.items()):
+            before = snap.get("$heap", {}).get(key)
+            if before is None:
+                before = z3.Const("heap0_%s_%s" % key, arr.sort())
+            if key not in heap_allowed and not arr.eq(before):
+                ex.oblige("frame heap field %s.%s unchanged" % key, arr == before, kind="frame")
         seen = set()
 
         def walk(v, path):
